@@ -417,7 +417,7 @@ func ruleAllocate(c *Ctx, prefix string, ai *allocImpl, want map[string]bool) {
 				out = append(out, s)
 			}
 		}
-		errV := ex.Resolve(st, ret.Results[1])
+		errV := ex.ResolveDeep(st, ret.Results[1])
 		errC := ex.Canon(st, ret.Results[1]).S
 		isNoAddr := strings.HasSuffix(errC, "allocators.ErrNoAddrAvail")
 		defErr := isNoAddr || definitelyNonNil(errV)
@@ -652,7 +652,7 @@ func ruleFree(c *Ctx, prefix string, ai *allocImpl) {
 			tst, _ := histFact(st, "bool", regexp.MustCompile(`^\(\*`+reQ(pkgBitset)+`\.BitSet\)\.Test\(\$0\.`+ai.Bitmap+`,`))
 			if tst == 0 {
 				nDbl++
-				r := ex.Resolve(st, ret.Results[0])
+				r := ex.ResolveDeep(st, ret.Results[0])
 				if al, ok := r.(*ssa.Alloc); !ok || namedOf(al.Type()) != modPath+"/plugins/allocators.ErrDoubleFree" {
 					if len(exitBad) < 4 {
 						exitBad = append(exitBad, fmt.Sprintf("freeing a block that is not outstanding returns %s at %s, want *allocators.ErrDoubleFree", shortName(ex.Canon(st, ret.Results[0]).S), c.P.InstrPos(in)))
